@@ -239,7 +239,9 @@ def decode(input, errors="strict", encoding=None, force=True):
             encoding = _encoding
 
     # NEEDS: change in parse.py (str to bytes!)
-    (input, consumed) = codecs.getdecoder(encoding)(input, errors)
+    # bytes.decode refuses codecs which are no text encodings (e.g. ``hex``)
+    consumed = len(input)
+    input = bytes(input).decode(encoding, errors)
     return (_fixencoding(input, str(encoding), True), consumed)
 
 
@@ -254,8 +256,8 @@ def encode(input, errors="strict", encoding=None):
         input = _fixencoding(input, str(encoding), True)
     if encoding == "css":
         raise ValueError("css not allowed as encoding name")
-    encoder = codecs.getencoder(encoding)
-    return (encoder(input, errors)[0], consumed)
+    # str.encode refuses codecs which are no text encodings (e.g. ``hex``)
+    return (input.encode(encoding, errors), consumed)
 
 
 def _bytes2int(bytes):
